@@ -16,6 +16,8 @@ def run(ctx):
     _derived(ctx, 'C17.R4', ('Recipe', 'RecipeStep', 'Container', 'Plate', 'PlateSlicer', 'Slicer'))
     from .configtime import decisions_not_taken_on_display_values as _coarse
     _coarse(ctx, 'C17.R4', ('Container', 'Plate', 'PlateSlicer', 'Recipe', 'RecipeStep'))
+    from .c08 import every_declaration_is_recorded as _recorded
+    _recorded(ctx, 'C17.R4')
     # per-well amounts gathered with numpy.vectorize need an explicit result type: without it the type of the first
     # well decides, and an empty first well (int 0) truncates every later amount to whole storage units
     from .c15 import t5 as _vectorize_dtype
